@@ -207,6 +207,28 @@ PROPS = {
                       'covariances) through every conversion the property names',
         'level_note': 'catalogue values only; attitude tolerance grows as 1/cos(pitch)',
     },
+    'C12': {
+        'sources': ['src/geometry/Pose3D.cpp', 'src/geometry/Pose2D.cpp', 'src/geometry/Position3D.cpp', 'src/geometry/Ellipse.cpp',
+                    'src/transform/SmartRotation3D.cpp', 'src/regression/leastsquares/LeastSquares.cpp'],
+        'harness': 'c12_derivatives.cpp',
+        'flavour': 'plain',
+        'level': 'exploration',
+        'engine': 'lattice',
+        'rule': 'full lattices: (roll x pitch x yaw x angle index) for the rotation derivative matrices and (x vector) for '
+                'dRTdAngles, each against Richardson-extrapolated central differences of the library own R(); (rigid '
+                'transform x attitude x position x covariance) for the pose covariance against J_fd C J_fd^T with J_fd '
+                'from central differences of the library own pose transformation; (estimate size x data size x solver '
+                'x preconditioner x scalar) for the solver covariance against a long-double inverse normal matrix. '
+                'Every case is a distinct linearisation point and counts as non-trivial.',
+        'assumptions': ['finite-difference truncation error below 1e-9 for h=1e-4 with Richardson extrapolation (angles O(1))',
+                        'a derivative residual that equals exactly the leftover-identity term is classified separately (site suffix .strayIdentityTerm) so that any other derivative error is still a violation'],
+        'tiers': {'quick': {'deadline': 300}, 'thorough': {'deadline': 3000}},
+        'technique': 'bounded-exhaustive lattice of linearisation points on the real code, finite-difference oracle built from the implementation own maps',
+        'level_text': 'every linearisation point of the stated lattices (pitch up to pi/2-0.05, 14 rigid transforms, 36 '
+                      'attitudes, 14 PSD covariances incl. rank-1) compared with finite differences of the implementation '
+                      'own maps',
+        'level_note': 'lattice values only; finite-difference oracle accuracy 1e-7..1e-6',
+    },
 }
 
 ENGINES = [
